@@ -8,7 +8,7 @@ innermost (class, field) on the path to the junk, as computed by an independent 
 knows only the class definitions and the path of the mutation.  Correspondence: the same loads on
 the Gallina model (generated code, specification, Coq locator).
 """
-import json, base64, datetime, copy
+import json, base64, datetime, copy, os
 from props import c02gen as G
 from props import c02 as C2
 from props.c02gen import leaf, seq, tup, dct, opt, union, lit, data
@@ -34,7 +34,7 @@ META = {
                    'failures are ordinary exceptions (hypothesis, audited on every run); the harness.'),
     'rule': ('class models nested to depth 3 through direct fields, list, dict values, Optional and fixed tuples; for each, '
              'one well-typed document and every single-position mutation from the junk list at a sample of positions '
-             '(quick) or all positions (thorough), plus removal of each required key. Non-trivial: the junk lies inside a '
+             '(22 per model quick, 30 thorough; 5 resp. all 13 junk values), plus removal of each required key. Non-trivial: the junk lies inside a '
              'nested class (depth >= 2); distinct = distinct (model, path, junk).'),
     'trusted_base': ['message renderers (errors.py message properties, safe_dumps) are exercised on every failing load but not modelled'],
     'assumptions': ['JSON documents with string keys', 'attribution is claimed for the ParseError family (class and field) and for '
@@ -155,9 +155,37 @@ def delete_key(doc, path, i):
     return d
 
 
+def dc_shape(t, v, model, depth=0):
+    """every value at a dataclass-typed position (reached with Python's iteration / indexing
+    semantics) is None or a dict — the region predicate of F24 (mirror of dc_shape_n in V1Eval.v)"""
+    if v is None or depth > 60:
+        return True
+    k = t['k']
+    if k == 'seq':
+        it = G.py_iter(v)
+        return True if it is None else all(dc_shape(t['t'], x, model, depth + 1) for x in it)
+    if k == 'tuple':
+        return all(dc_shape(tt, G.py_index(v, i), model, depth + 1) for i, tt in enumerate(t['ts']))
+    if k == 'dict':
+        return True if v[0] != 'D' else all(dc_shape(t['kt'], kk, model, depth + 1) and dc_shape(t['vt'], x, model, depth + 1)
+                                            for kk, x in v[2])
+    if k == 'opt':
+        return dc_shape(t['t'], v, model, depth)
+    if k == 'data':
+        if v == ['N']:
+            return True
+        if v[0] != 'D':
+            return False
+        cd = model['classes'][t['c']]
+        return all(dc_shape(f['ty'], G.py_index(v, f['name']), model, depth + 1) for f in cd['fields'])
+    return True
+
+
 def expectation(pos, junk, model, root_name):
     """Independent reference: what a FAILING load must report.  -> dict(kind set, cls, fld, region)"""
     t = pos['ty']
+    while t['k'] == 'opt':
+        t = t['t']
     fr = pos['frames'][-1] if pos['frames'] else None
     if t['k'] == 'data':
         cname = model['classes'][t['c']]['name']
@@ -223,7 +251,7 @@ def leafy_type(r, mb, allow_helpers=True):
 
 def build_models(ctx):
     r = ctx.sub_rng('models')
-    n = 14 if ctx.tier == 'quick' else 90
+    n = 14 if ctx.tier == 'quick' else 30
     out = []
     for mi in range(1, n + 1):
         mb = C2.MB(mi)
@@ -246,7 +274,21 @@ def build_models(ctx):
     return out
 
 
+RESOLVED = set()
+
+
 def run(ctx):
+    # listed findings first: a resolved finding's region is checked like any other input and the
+    # faithful-to-the-defect model is not compared inside it
+    RESOLVED.clear()
+    id_region = {v: k for k, v in REGION_ID.items()}
+    for f in ctx.findings('open'):
+        w = f.get('witness')
+        if w and w.get('kind') == 'doc':
+            fails = not replay(ctx, w, quiet=True)
+            ctx.known_finding(f['id'], still_fails=fails)
+            if not fails and f['id'] in id_region:
+                RESOLVED.add(id_region[f['id']])
     mbs = build_models(ctx)
     r = ctx.sub_rng('docs')
     quick = ctx.tier == 'quick'
@@ -268,7 +310,7 @@ def run(ctx):
             inst = cand
         m['instances'] = [inst]
         plan = []
-        chosen = ps if not quick else r.sample(ps, min(len(ps), 22))
+        chosen = r.sample(ps, min(len(ps), 22 if quick else 30))
         for pos in chosen:
             junks = JUNK if not quick else r.sample(JUNK, 5)
             for junk in junks:
@@ -297,23 +339,27 @@ def run(ctx):
 
     impl = ctx.impl('c14', {'models': [mb.m for mb in mbs]}, timeout=900)['models']
 
-    # ---- model side
+    # ---- model side: one prelude per model (class table + oracle table), documents in small shards
     model_ok, mres = True, {}
     try:
-        exprs, index = [], []
+        shards, index = [], []
         for mi, (mb, res) in enumerate(zip(mbs, impl)):
             if res.get('setup_err') or res.get('gen_err'):
                 continue
-            ct = G.coq_ct(mb.m, res['keys'])
-            tb = G.coq_oracle([(l, o, v, a) for l, o, v, a in res['oracle']])
-            for di, d in enumerate(mb.m['docs']):
-                exprs.append('(let ct := %s in let tb : list oentry := %s in case_load tb ct %d 0 %s)' % (ct, tb, C2.BUDGET, G.coq_pv(d)))
-                index.append((mi, di))
-        outs = ctx.coq(exprs, ['PyStr', 'V1Base', 'V1Gen', 'V1Errors', 'V1Eval', 'V1Show'], timeout=1500)
-        for (mi, di), o in zip(index, outs):
-            parts = o.split('#')
-            mres[(mi, di)] = {'code': G.parse_res(parts[0], mbs[mi].m), 'spec': G.parse_res(parts[1], mbs[mi].m),
-                              'loc': G.parse_attr(parts[2]), 'shape': parts[3] == 'shape'}
+            pre = 'Definition ct : ctable := %s.\nDefinition tb : list oentry := %s.' % (
+                G.coq_ct(mb.m, res['keys']), G.coq_oracle([(l, o, v, a) for l, o, v, a in res['oracle']]))
+            ex = ['case_load tb ct %d 0 %s' % (C2.BUDGET, G.coq_pv(d)) for d in mb.m['docs']]
+            SH = 40
+            for i in range(0, len(ex), SH):
+                shards.append((pre, ex[i:i + SH]))
+                index.append([(mi, di) for di in range(i, min(i + SH, len(ex)))])
+        outs = G.coq_shards(os.path.join(ctx.workdir, 'cases'), C2.IMPORTS, shards,
+                            jobs=8 if ctx.tier == 'quick' else 10, timeout=900)
+        for idx, out in zip(index, outs):
+            for (mi, di), o in zip(idx, out):
+                parts = o.split('#')
+                mres[(mi, di)] = {'code': G.parse_res(parts[0], mbs[mi].m), 'spec': G.parse_res(parts[1], mbs[mi].m),
+                                  'loc': G.parse_attr(parts[2]), 'shape': parts[3] == 'shape'}
     except Exception as e:
         model_ok = False
         ctx.broken_tie('model evaluation failed: %s' % str(e)[:800])
@@ -352,13 +398,13 @@ def run(ctx):
                 ctx.hist('outcome', out['err'])
                 bad = check_error(out, exp)
                 if bad:
-                    reg = (exp or {}).get('region')
-                    if reg and ctx.is_open_region(REGION_ID[reg]) and out.get('lib') and out.get('renders'):
+                    reg = (exp or {}).get('region') or (None if dc_shape(data(0), d, m) else 'F24')
+                    if reg and reg not in RESOLVED and ctx.is_open_region(REGION_ID[reg]) and out.get('lib') and out.get('renders'):
                         ctx.hist('known_region', reg)
                     else:
                         ctx.violation('%s (junk %s at %s)' % (bad, json.dumps(junk)[:60], json.dumps(pos['path'])), rp)
             # ---- correspondence
-            if model_ok and (mi, di) in mres:
+            if model_ok and (mi, di) in mres and not ('F24' in RESOLVED and not dc_shape(data(0), d, m)):
                 mr = mres[(mi, di)]
                 ctx.traces_validated += 1
                 if 'marker' in mr['code']:
@@ -370,7 +416,7 @@ def run(ctx):
                         ctx.broken_tie('generated-code model and implementation disagree on a malformed document',
                                        {'model': mr['code'], 'impl': {k: v for k, v in out.items() if k not in ('msg', 'mro')}, 'doc': d})
                 # the Coq locator agrees with the independent Python locator inside the proved region
-                if 'lib' in mr['spec'] and mr['shape'] and exp and not exp.get('region') and not _has_named(m) \
+                if 'lib' in mr['spec'] and mr['shape'] and dc_shape(data(0), d, m) and exp and not exp.get('region') and not _has_named(m) \
                         and mr['spec']['lib'] in ('P', 'D') and mr['loc'] is not None:
                     if [exp.get('cls'), exp.get('fld')] != mr['loc'] and exp['kinds'] != ['M']:
                         ctx.broken_tie('Coq locate and the Python reference locator disagree',
@@ -380,10 +426,6 @@ def run(ctx):
                         'document': doc, 'first_mutation': {'path': plan[0][1]['path'], 'junk': plan[0][2], 'expect': plan[0][3],
                                                             'impl': {k: v for k, v in res['docs'][1].items() if k in ('err', 'lib', 'cls', 'fld', 'renders')}}})
 
-    for f in ctx.findings('open'):
-        w = f.get('witness')
-        if w and w.get('kind') == 'doc':
-            ctx.known_finding(f['id'], still_fails=not replay(ctx, w, quiet=True))
 
 
 def _has_named(m):
